@@ -1,24 +1,37 @@
 """C02 - every import statement in a scanned file becomes an import edge, only those.
 
-Rules (DESIGN.md section 4, C02):
-  C02.R1  grammar-exhaustive descent of the import collector (oracle: the running interpreter's `ast` grammar)
-  C02.R2  both import statement classes are dispatched and every name of a statement is consumed
-  C02.R3  `from P import n`: each n is joined to P and looked up in the internal-module set; no value leaks between names
-  C02.R4  relative resolution: importee = ancestors(importer)[-level] + "." + name  (shape)
-  C02.R5  converse: who may create Import records / import edges; edges only between known modules
+The rules are *symbolic test cases against public entry points*, decided by the path-enumerating symbolic executor of
+`c02_sym.py` / `c02_exec.py` / `c02_builtins.py` (static: the source of /repo is interpreted on symbolic inputs, nothing is imported
+or run).  Only names that tests / docs / other modules use are anchored: `ImportConverter().convert(asts, prefix, internal)`,
+`NamedModule(ast, name)`, the abstract `Import` API (`importer()`, `importee()`), `NetworkxGraph(all_modules, imports, level_limit)`,
+the library calls `ast.*` and `DiGraph.add_edge / has_node / ...`.  Private helpers, local names, loop idioms are never looked at.
+
+  C02.R1  descent: for every statement-list position of the running interpreter's `ast` grammar (oracle), in every nesting context,
+          an import statement placed there comes out of `convert` as an import record; a tree without import statements yields none
+  C02.R2  dispatch: every import statement class of the grammar yields exactly one record per imported name, importer = the file
+  C02.R3  `from P import n`: the importee of each name is P.n if that is an internal module and P otherwise (absolute and relative),
+          decided by a membership test in the internal-module set, independently for each name of the statement
+  C02.R4  relative resolution: the package a relative import is resolved against is ancestors(importer)[-level], and ancestors()
+          yields exactly the proper dotted prefixes of a module name
+  C02.R6  completeness on the way to the graph: wherever a collection of import records is de-duplicated / filtered by record equality
+          (set(), dict.fromkeys, `in`, ...), equality of two records must imply the same (importer(), importee()) - else two import
+          statements collapse into one edge
+  C02.R5  converse: import records are created only by the collector; the graph adds an import edge importer -> importee exactly when
+          both are known nodes, distinct (after flattening) and the edge is not present yet - for no other reason is it dropped
 """
 
 from __future__ import annotations
 
 import ast
 import re
+from typing import Any
 
-from core.flow import Flow, Spec
-from core.guards import atoms_of, conds_formula, evaluate, to_formula
-from core.loader import AnalysisError, FuncInfo, Repo, ancestors, calls_in, header, norm, own_nodes, parent
+from core.loader import AnalysisError, FuncInfo as FuncInfoT, Repo, calls_in, norm, own_nodes
 from core.report import Result
 
-from .common import cfg_of, conds, dotted, is_attr_call, loop_carried, loops_around, iter_sources, reachable_funcs, stmt_of, types_of, where
+from . import c02_builtins  # noqa: F401  (installs the full interpreter into Explorer)
+from .c02_sym import ANode, App, Cat, Explorer, Inst, Run, Sym, Term, Unsupported, cat, dataclass_eq, mentions, show
+from .common import reachable_funcs, stmt_of, types_of, where
 
 CONVERTER = "pytestarch.eval_structure_generation.file_import.converter"
 IMPORT_TYPES = "pytestarch.eval_structure_generation.file_import.import_types"
@@ -51,10 +64,7 @@ def grammar() -> dict[str, list[tuple[str, str]]]:
                 typ, _, fname = part.rpartition(" ")
                 fields.append((fname, typ))
         elif cls._fields:
-            if getattr(cls, "__module__", "") != "ast" and not doc:
-                continue
-            # deprecated shim classes (Num, Str, ...) or undocumented: skip
-            continue
+            continue  # deprecated shim classes (Num, Str, ...) or undocumented: skip
         if set(f for f, _ in fields) != set(cls._fields):
             continue
         out[name] = fields
@@ -68,303 +78,498 @@ def concrete_classes_of(typ: str, gram: dict) -> list[str]:
     cls = getattr(ast, base, None)
     if cls is None:
         return []  # identifier, int, string, constant
-    out = []
-    for name in gram:
-        c = getattr(ast, name)
-        if issubclass(c, cls):
-            out.append(name)
-    return out
+    return [name for name in gram if issubclass(getattr(ast, name), cls)]
 
 
-# --------------------------------------------------------------------------- class-guard evaluation
+def import_classes_of(gram: dict) -> list[str]:
+    return sorted(c for c in gram if issubclass(getattr(ast, c), ast.stmt) and any(t == "alias*" for _, t in gram[c]))
 
 
-def _class_tuple(e: ast.expr) -> list[str] | None:
-    items = e.elts if isinstance(e, ast.Tuple) else [e]
-    names = []
-    for it in items:
-        d = dotted(it)
-        if not d:
-            return None
-        names.append(d.split(".")[-1])
-    return names
+# --------------------------------------------------------------------------- abstract syntax trees
 
 
-def eval_conds_for_class(conditions: list, var: str, cls_name: str) -> bool | None:
-    """Truth of a condition list for a node of class `cls_name` bound to `var`; None if it depends on anything else."""
-    cls = getattr(ast, cls_name)
-    env: dict[str, bool] = {}
-    unknown = False
-    f = conds_formula(conditions)
-    atom_exprs: dict[str, ast.expr] = {}
-    for e, _ in conditions:
-        for n in ast.walk(e):
-            if isinstance(n, ast.Call):
-                atom_exprs[norm(n)] = n
-                atom_exprs[f"bool({norm(n)})"] = n
-    for a in atoms_of(f):
-        e = atom_exprs.get(a)
-        val = None
-        if isinstance(e, ast.Call) and isinstance(e.func, ast.Name) and len(e.args) >= 2 and dotted(e.args[0]) == var:
-            if e.func.id == "isinstance":
-                names = _class_tuple(e.args[1])
-                if names is not None and all(hasattr(ast, n) for n in names):
-                    val = any(issubclass(cls, getattr(ast, n)) for n in names)
-            elif e.func.id == "hasattr" and isinstance(e.args[1], ast.Constant):
-                val = e.args[1].value in cls._fields or e.args[1].value in getattr(cls, "_attributes", ())
-        if val is None:
-            unknown = True
-            env[a] = True
+_PRIMITIVE = {"identifier": "x", "int": 0, "string": "s", "constant": None}
+
+
+def _representative(gram: dict, typ: str, depth: int) -> Any:
+    """A value of a grammar type: primitives natively, node types by their simplest concrete class."""
+    if typ in _PRIMITIVE:
+        return _PRIMITIVE[typ]
+    cands = concrete_classes_of(typ, gram)
+    if not cands or depth > 4:
+        return Sym(f"<{typ}>")
+    prefer = {"expr": "Name", "expr_context": "Load", "stmt": "Pass", "pattern": "MatchAs"}
+    c = prefer.get(typ) if prefer.get(typ) in cands else min(cands, key=lambda k: (sum(1 for _f, t in gram[k] if not t.endswith(("*", "?"))), len(gram[k]), k))
+    return node(gram, c, _depth=depth + 1)
+
+
+def node(gram: dict, cls: str, tag: str = "", _depth: int = 0, **fields: Any) -> ANode:
+    """Abstract node of a grammar class: list fields empty, optional fields None, mandatory fields a representative of their type."""
+    f: dict[str, Any] = {}
+    for fname, typ in gram[cls]:
+        if fname in fields:
+            f[fname] = fields[fname]
+        elif typ.endswith("*"):
+            f[fname] = []
+        elif typ.endswith("?"):
+            f[fname] = None
         else:
-            env[a] = val
-    if not unknown:
-        return evaluate(f, env)
-    # three-valued: try both values of the unknown atoms
-    unk = [a for a in atoms_of(f) if atom_exprs.get(a) is None or env.get(a) is None]
-    results = set()
-    import itertools
-
-    unknown_atoms = [a for a in atoms_of(f) if not _known_atom(atom_exprs.get(a), var)]
-    for vals in itertools.product([False, True], repeat=len(unknown_atoms)):
-        e2 = dict(env)
-        e2.update(dict(zip(unknown_atoms, vals)))
-        results.add(evaluate(f, e2))
-    return results.pop() if len(results) == 1 else None
+            f[fname] = _representative(gram, typ, _depth)
+    return ANode(cls, f, tag)
 
 
-def _known_atom(e: ast.expr | None, var: str) -> bool:
-    return (
-        isinstance(e, ast.Call)
-        and isinstance(e.func, ast.Name)
-        and e.func.id in ("isinstance", "hasattr")
-        and len(e.args) >= 2
-        and dotted(e.args[0]) == var
-    )
+def import_leaf(gram: dict, cls: str, names: list[str], module: Any = None, level: Any = 0, symbolic: bool = True) -> ANode:
+    aliases = [node(gram, "alias", name=Sym(n, "str") if symbolic else n, asname=Sym(f"{n}_asname", "optstr") if symbolic else None) for n in names]
+    extra: dict[str, Any] = {}
+    for fname, _typ in gram[cls]:
+        if fname == "module":
+            extra["module"] = module
+        elif fname == "level":
+            extra["level"] = level
+    return node(gram, cls, names=aliases, **extra)
+
+
+def filler(gram: dict, i: int) -> ANode:
+    if i % 2:
+        return node(gram, "Pass")
+    return node(gram, "Expr", value=node(gram, "Name", id="x"))
+
+
+def positions_of(gram: dict) -> tuple[list[tuple[str, str, str]], dict[str, list[tuple[str, str]]]]:
+    """Statement-carrying positions reachable from Module, and for every reachable class the shortest chain of positions leading to it."""
+    chains: dict[str, list[tuple[str, str]]] = {"Module": []}
+    work = ["Module"]
+    while work:
+        c = work.pop(0)
+        for f, typ in gram[c]:
+            if typ in STMT_CARRIERS:
+                for child in concrete_classes_of(typ, gram):
+                    if child not in chains:
+                        chains[child] = chains[c] + [(c, f)]
+                        work.append(child)
+    pos = [(c, f, typ) for c in sorted(gram) for f, typ in gram[c] if typ in STMT_CARRIERS]
+    return pos, chains
+
+
+def wrap(gram: dict, chain: list[tuple[str, str]], inner: ANode) -> ANode:
+    """Tree in which `inner` sits at the end of the chain of positions (each level also carries sibling statements)."""
+    cur = inner
+    for c, f in reversed(chain):
+        typ = dict(gram[c])[f]
+        sibs = [filler(gram, 1), cur, filler(gram, 0)] if typ == "stmt*" else [cur]
+        cur = node(gram, c, **{f: sibs})
+    return cur
+
+
+# --------------------------------------------------------------------------- running the collector
+
+
+class Collector:
+    """The public entry `ImportConverter().convert(list[NamedModule], prefix, internal modules)` under the symbolic executor."""
+
+    def __init__(self, repo: Repo, hierarchy_fq: str | None) -> None:
+        self.repo = repo
+        self.conv_cls = repo.cls(CONVERTER, "ImportConverter")
+        self.named = repo.cls(IMPORT_TYPES, "NamedModule")
+        self.entry = repo.lookup_method(self.conv_cls, "convert")
+        if self.entry is None:
+            raise AnalysisError("anchor ImportConverter.convert not found")
+        self.base = repo.cls(TYPES_MOD, "Import")
+        self.opaque = {hierarchy_fq} if hierarchy_fq else set()
+        self.paths = 0
+        self.fallbacks: set[str] = set()
+        self.entered: set[str] = set()
+
+    def run(self, tree: ANode, prefix: Any, internal: Any, importer: Any) -> list[Run]:
+        repo = self.repo
+
+        def entry(it):
+            conv = it.instantiate(self.conv_cls, [], {}, None, None)
+            nm = it.instantiate(self.named, [tree, importer], {}, None, None)
+            res = it.call(it.getattr_value(conv, "convert"), [[nm], prefix, internal], {})
+            kind, items = it.iterate(res, self.entry.node, None) if res is not None else ("concrete", [])
+            if kind != "concrete":
+                raise Unsupported("convert() returns a collection of unknown length", self.entry.node, self.entry)
+            out = []
+            for r in items:
+                if not isinstance(r, Inst) or not repo.is_subclass(r.ci, self.base.fq):
+                    raise Unsupported(f"convert() returned a {show(r)} instead of an Import record", self.entry.node, self.entry)
+                out.append((r, it.call(it.getattr_value(r, "importer"), [], {}), it.call(it.getattr_value(r, "importee"), [], {})))
+            return out
+
+        ex = Explorer(repo, opaque=self.opaque)
+        runs = ex.explore(entry)
+        self.paths += len(runs)
+        self.fallbacks |= ex.fallbacks
+        self.entered |= ex.entered
+        return runs
+
+
+def fmt_path(r: Run, only: Any = None) -> str:
+    items = [(a, v) for a, v in r.trace if a.fn not in ("loop", "call") and (only is None or only(a))]
+    return ", ".join(f"{show(a)} = {v}" for a, v in items) or "no decision"
 
 
 # --------------------------------------------------------------------------- R1
 
 
-ALL = "*"
+def run_r1(repo: Repo, res: Result, gram: dict, col: Collector, leaves: list[str]) -> None:
+    fi = col.entry
+    key = f"{fi.relpath}::{fi.qualname}"
+    wh = where(fi, fi.node)
+    pos, chains = positions_of(gram)
+    F = Sym("importer", "str")
+
+    def leaf_stmts(tagno: int) -> tuple[list[ANode], list[str]]:
+        out, names = [], []
+        for i, lc in enumerate(leaves):
+            n = f"leaf{tagno}x{i}"  # concrete names: R1 is about the descent, what is done with names is R2 / R3
+            out.append(import_leaf(gram, lc, [n], module=f"{n}pkg", level=0, symbolic=False))
+            names.append(n)
+        return out, names
+
+    def probe(chain: list[tuple[str, str]], c: str, f: str, typ: str) -> str | None:
+        """None if an import placed at position c.f (c itself sitting at the end of `chain`) comes out as a record, else the reason."""
+        stmts, names = leaf_stmts(0)
+        block = [filler(gram, 0), *stmts, filler(gram, 1)]
+        if typ == "stmt*":
+            content = block
+            variants = [content]
+        else:
+            variants = []
+            for carrier in concrete_classes_of(typ, gram):
+                body_fields = [bf for bf, bt in gram[carrier] if bt == "stmt*"]
+                if not body_fields:
+                    continue
+                variants.append([node(gram, carrier, **{body_fields[0]: list(block)})])
+        for content in variants:
+            tree = wrap(gram, chain, node(gram, c, **{f: content})) if c != "Module" else node(gram, "Module", body=content)
+            if tree.cls != "Module":
+                raise AnalysisError(f"chain for {c} does not start at Module")
+            runs = col.run(tree, "", set(), F)
+            for r in runs:
+                if r.outcome != "return":
+                    return f"the collector raises {r.raised}"
+                got = r.value
+                for n in names:
+                    if not any(n in show(imp) for _rec, _a, imp in got):
+                        return f"no record for the import of `{n}`" + (f" below {content[0].cls}" if typ != "stmt*" else "")
+                if len(got) != len(names):
+                    return f"{len(got)} records for {len(names)} import statements"
+        return None
+
+    n_oblig = 0
+    direct: dict[tuple[str, str], str | None] = {}
+    gave_up: dict[tuple[str, str], Unsupported] = {}
+    live = []
+    for c, f, typ in pos:
+        if c not in chains:
+            res.observe(f"C02.R1: grammar position {c}.{f} is not reachable from Module through statement lists (separate root), not an obligation")
+            continue
+        live.append((c, f, typ))
+        try:
+            direct[(c, f)] = probe(chains[c], c, f, typ)
+        except Unsupported as u:
+            gave_up[(c, f)] = u
+    for c, f, typ in live:
+        n_oblig += 1
+        if (c, f) in gave_up:
+            u = gave_up[(c, f)]
+            res.undecide("C02.R1", f"{key}::position {c}.{f}", f"the symbolic executor cannot interpret the collector: {u.msg}", u.where() or wh)
+            continue
+        why = direct[(c, f)]
+        ctx_fail: list[str] = []
+        if why is None:
+            # the same position nested below every other position that can hold a node of class c; contexts that lose imports
+            # themselves are reported at their own position, not again here
+            try:
+                for d, g, dtyp in live:
+                    if direct.get((d, g), "x") is not None or c == "Module" or c not in concrete_classes_of(dtyp, gram):
+                        continue
+                    w = probe(chains[d] + [(d, g)], c, f, typ)
+                    if w is not None:
+                        ctx_fail.append(f"{d}.{g} ({w})")
+            except Unsupported as u:
+                res.undecide("C02.R1", f"{key}::position {c}.{f}", f"the symbolic executor cannot interpret the collector: {u.msg}", u.where() or wh)
+                continue
+        ok = why is None and not ctx_fail
+        if ok:
+            detail = f"an import statement at {c}.{f} ({typ}), at top level of its chain and nested below every other statement position, is converted"
+        elif why is not None:
+            detail = f"an import statement placed at the statement-list position {c}.{f} ({typ}) of the interpreter's grammar produces no import record: {why}"
+        else:
+            detail = f"an import statement at {c}.{f} is lost when the {c} node is nested below: {', '.join(ctx_fail[:6])}"
+        res.add("C02.R1", f"{key}::position {c}.{f}", ok, detail, wh, kind="grammar")
+    res.floor("C02.R1", 20, n_oblig)
+    # converse at the collector: no statement, no record
+    try:
+        tree = node(gram, "Module", body=[filler(gram, 0), node(gram, "If", body=[filler(gram, 1)], orelse=[filler(gram, 0)])])
+        runs = col.run(tree, Sym("prefix", "anystr"), Sym("internal", "set"), F)
+        bad = [r for r in runs if r.outcome == "return" and r.value]
+        res.add(
+            "C02.R1",
+            f"{key}::no import statement, no record",
+            not bad,
+            "a file without import statements yields no import record" if not bad else f"a file without import statements yields {len(bad[0].value)} import record(s): {', '.join(show(x[2]) for x in bad[0].value[:3])}",
+            wh,
+            kind="grammar",
+        )
+    except Unsupported as u:
+        res.undecide("C02.R1", f"{key}::no import statement, no record", u.msg, u.where() or wh)
+    res.analysed["statement_positions"] = [f"{c}.{f}" for c, f, _ in pos]
+    res.analysed["grammar_classes"] = len(gram)
 
 
-def _worklists(fi: FuncInfo) -> set[str]:
-    """Names of lists that are popped inside a `while` loop of the collector."""
-    out = set()
-    for n in own_nodes(fi.node):
-        if isinstance(n, ast.While):
-            for c in ast.walk(n):
-                if is_attr_call(c, "pop") and isinstance(c.func.value, ast.Name):
-                    out.add(c.func.value.id)
-    return out
+# --------------------------------------------------------------------------- R2 / R3 / R4
 
 
-def _aliases(fi: FuncInfo, worklists: set[str]) -> set[str]:
-    """Worklist names plus parameters / locals aliased to them (`module_to_search = asts`)."""
-    out = set(worklists)
-    for n in own_nodes(fi.node):
-        if isinstance(n, ast.Assign) and isinstance(n.value, ast.Name):
-            for t in n.targets:
-                if isinstance(t, ast.Name) and (t.id in out or n.value.id in out):
-                    out |= {t.id, n.value.id}
-    return out
+class Case:
+    """One import statement with two names under fully symbolic options; every path classified against the specification."""
+
+    def __init__(self, gram: dict, cls: str) -> None:
+        self.cls = cls
+        self.has_module = any(f == "module" for f, _ in gram[cls])
+        self.has_level = any(f == "level" for f, _ in gram[cls])
+        self.names = [Sym("n1", "str"), Sym("n2", "str")]
+        self.P = Sym("P", "optstr")
+        self.L = Sym("level", "nat")
+        self.F = Sym("importer", "str")
+        self.X = Sym("prefix", "anystr")
+        self.S = Sym("internal", "set")
+        leaf = import_leaf(gram, cls, ["n1", "n2"], module=self.P, level=self.L)
+        self.tree = node(gram, "Module", body=[leaf])
 
 
-def _push_of(node: ast.AST, fi: FuncInfo, worklists: set[str]) -> ast.AST | None:
-    """The worklist push (`W.extend(..)`, `W.append(..)`, `W += ..`, `W = W + ..`) an expression feeds, if any."""
-    for a in ancestors(node):
-        if a is fi.node:
-            return None
-        if isinstance(a, ast.Call) and isinstance(a.func, ast.Attribute) and a.func.attr in ("extend", "append", "insert") and dotted(a.func.value) in worklists:
-            return a
-        if isinstance(a, ast.AugAssign) and dotted(a.target) in worklists:
-            return a
-        if isinstance(a, ast.Assign) and any(dotted(t) in worklists for t in a.targets):
-            return a
-        if isinstance(a, (ast.For, ast.AsyncFor)) and node is not a and _inside(node, a.iter):
-            # `for m in <enumeration>: W.append(..m..)`
-            for c in ast.walk(ast.Module(body=a.body, type_ignores=[])):
-                if isinstance(c, ast.Call) and isinstance(c.func, ast.Attribute) and c.func.attr in ("append", "extend", "insert") and dotted(c.func.value) in worklists:
-                    return c
+def path_val(r: Run, atom: App) -> bool | None:
+    if atom in r.path:
+        return r.path[atom]
+    if atom.fn == "in":
+        if r.path.get(App("truthy", (atom.args[1],))) is False:
+            return False
     return None
 
 
-def _inside(node: ast.AST, root: ast.AST) -> bool:
-    return any(n is node for n in ast.walk(root))
+def split_anchor(t: Any) -> tuple[Any, Any]:
+    """(head, rest) of a dotted term `head + "." + rest`; rest is None when the term has no such shape."""
+    if isinstance(t, Cat) and len(t.parts) >= 3 and isinstance(t.parts[1], str) and t.parts[1].startswith("."):
+        rest = cat(t.parts[1][1:], *t.parts[2:])
+        return t.parts[0], rest
+    return t, None
 
 
-def _element_filter(enum: ast.AST, push: ast.AST, fi: FuncInfo) -> tuple[str | None, list]:
-    """Loop variable bound to the enumerated children and the conditions restricting which children are pushed."""
-    p = parent(enum)
-    # comprehension: [.. for m in ENUM if cond]
-    if isinstance(p, ast.comprehension) and p.iter is enum and isinstance(p.target, ast.Name):
-        return p.target.id, [(c, True) for c in p.ifs]
-    # for m in ENUM: if cond: W.append(..)
-    if isinstance(p, (ast.For, ast.AsyncFor)) and p.iter is enum and isinstance(p.target, ast.Name):
-        all_c = conds(fi, push)
-        outer = conds(fi, p)
-        extra = [c for c in all_c if not any(c[0] is o[0] for o in outer)]
-        return p.target.id, extra
-    # W.extend(ENUM) / W += ENUM : no filter
-    return None, []
-
-
-def descent_relation(repo: Repo, fi: FuncInfo, gram: dict):
-    """[(fields or ALL, node variable, guard conditions, child variable, child filter, where)] found in the collector."""
-    worklists = _aliases(fi, _worklists(fi))
-    if not worklists:
-        raise AnalysisError(f"{fi.fq}: no worklist loop found (unknown descent idiom)")
-    field_names = {f for fields in gram.values() for f, _ in fields}
-    found = []
-    for n in own_nodes(fi.node):
-        fields = None
-        var = None
-        if isinstance(n, ast.Call):
-            fq = repo.resolve_name(fi.module, n.func) or ""
-            if fq in ("ast.iter_child_nodes", "ast.walk", "ast.iter_fields") and n.args:
-                fields, var = ALL, dotted(n.args[0])
-            elif isinstance(n.func, ast.Name) and n.func.id == "getattr" and len(n.args) >= 2:
-                if isinstance(n.args[1], ast.Constant) and n.args[1].value in field_names:
-                    fields, var = {n.args[1].value}, dotted(n.args[0])
-                elif isinstance(n.args[1], ast.Name):
-                    # getattr(node, name, ..) inside `for name in ("body", "orelse", ...)` or node._fields
-                    for lp in loops_around(n, fi.node):
-                        for tgt, it in iter_sources(lp):
-                            if isinstance(tgt, ast.Name) and tgt.id == n.args[1].id:
-                                if isinstance(it, (ast.Tuple, ast.List)) and all(isinstance(x, ast.Constant) for x in it.elts):
-                                    fields, var = {x.value for x in it.elts}, dotted(n.args[0])
-                                elif isinstance(it, ast.Attribute) and it.attr == "_fields":
-                                    fields, var = ALL, dotted(n.args[0])
-        elif isinstance(n, ast.Attribute) and isinstance(n.ctx, ast.Load) and n.attr in field_names and dotted(n.value):
-            # node.<field> used as an iteration source
-            p = parent(n)
-            if (isinstance(p, ast.comprehension) and p.iter is n) or (isinstance(p, (ast.For, ast.AsyncFor)) and p.iter is n) or (
-                isinstance(p, ast.Call) and n in p.args and isinstance(p.func, ast.Attribute) and p.func.attr == "extend"
-            ):
-                fields, var = {n.attr}, dotted(n.value)
-        if fields is None or not var:
+def run_r2_r3_r4(repo: Repo, res: Result, gram: dict, col: Collector) -> tuple[list[str], str | None]:
+    """Returns the import classes that are dispatched at all (usable as leaves for R1) and the fq of the ancestor function seen in R4."""
+    fi = col.entry
+    key = f"{fi.relpath}::{fi.qualname}"
+    wh = where(fi, fi.node)
+    usable: list[str] = []
+    hierarchy_fq: str | None = None
+    n2 = n3 = n4 = 0
+    for cls in import_classes_of(gram):
+        case = Case(gram, cls)
+        before = set(col.fallbacks)
+        try:
+            runs = col.run(case.tree, case.X, case.S, case.F)
+        except Unsupported as u:
+            res.undecide("C02.R2", f"{key}::dispatch {cls}", f"the symbolic executor cannot interpret the conversion of ast.{cls}: {u.msg}", u.where() or wh)
+            n2, n3, n4 = n2 + 4, n3 + 2, n4 + 1  # attempted: the floors must not mask the reason
             continue
-        push = _push_of(n, fi, worklists)
-        if push is None:
+        L0 = App("eq", (case.L, 0))
+        noneP = App("isnone", (case.P,))
+        feasible = [r for r in runs if not (case.has_level and case.has_module and path_val(r, L0) is True and path_val(r, noneP) is True)]
+        # ---- R2: dispatched, one record per name, importer is the file
+        none_at_all = all(r.outcome == "return" and not r.value for r in feasible)
+        ok = not none_at_all
+        res.add("C02.R2", f"{key}::dispatch {cls}", ok, f"import statement class ast.{cls} is converted" if ok else f"import statement class ast.{cls} is never converted: such statements produce no import record (and no edge)", wh, kind="grammar")
+        n2 += 1
+        if none_at_all:
             continue
-        child_var, child_filter = _element_filter(n, push, fi)
-        found.append((fields, var, conds(fi, push), child_var, child_filter, n))
-    return found, worklists
-
-
-def run_r1(repo: Repo, res: Result, gram: dict) -> FuncInfo:
-    fi = repo.func(CONVERTER, "ImportConverter.convert")
-    found, worklists = descent_relation(repo, fi, gram)
-    if not found:
-        raise AnalysisError(f"{fi.fq}: the way child nodes are pushed onto the worklist was not recognised (accepted idioms: ast.iter_child_nodes / ast.walk / ast.iter_fields / node._fields, node.<field> under hasattr, getattr over a literal tuple)")
-
-    def descended_fields(cls_name: str) -> dict[str, list]:
-        """field -> list of child filters under which its children are pushed, for a node of this class."""
-        out: dict[str, list] = {}
-        for fields, var, guard, child_var, child_filter, _ in found:
-            ok = eval_conds_for_class(guard, var, cls_name)
-            if ok is not True:
+        usable.append(cls)
+        problems: dict[str, list[str]] = {"count": [], "importer": [], "raise": [], "plain": [], "indep": [], "consult": [], "from": [], "anchor": [], "level": []}
+        undecided: list[str] = []
+        sites: dict[str, str] = {}
+        for r in feasible:
+            pc = fmt_path(r)
+            if r.outcome != "return":
+                problems["raise"].append(f"the conversion raises {r.raised} when {pc}")
                 continue
-            for f, _t in gram[cls_name]:
-                if fields == ALL or f in fields:
-                    out.setdefault(f, []).append((child_var, child_filter))
-        return out
-
-    def admitted(child_cls: str, filters: list) -> bool:
-        for child_var, child_filter in filters:
-            if not child_filter or child_var is None:
-                return True
-            if eval_conds_for_class(child_filter, child_var, child_cls) is not False:
-                return True
-        return False
-
-    # reachability over grammar classes starting at Module
-    reached = {"Module"}
-    work = ["Module"]
-    edges_ok: set[tuple[str, str]] = set()
-    while work:
-        c = work.pop()
-        d = descended_fields(c)
-        for f, typ in gram[c]:
-            if f not in d:
+            recs = r.value
+            if len(recs) != len(case.names) and any(v and a.fn == "eq" and all(mentions(a, x) for x in case.names) for a, v in r.path.items()):
+                continue  # the two names were decided to be the same name: one record may stand for both
+            if len(recs) != len(case.names):
+                problems["count"].append(f"{len(recs)} record(s) for a statement importing {len(case.names)} names ({', '.join(show(x[2]) for x in recs) or 'none'}) when {pc}")
                 continue
-            edges_ok.add((c, f))
-            for child in concrete_classes_of(typ, gram):
-                if child not in reached and admitted(child, d[f]):
-                    reached.add(child)
-                    work.append(child)
-    # grammar-level reachability through statement-carrying positions only (what *can* hold an import statement)
-    g_reached = {"Module"}
-    work = ["Module"]
-    while work:
-        c = work.pop()
-        for f, typ in gram[c]:
-            if typ in STMT_CARRIERS:
-                for child in concrete_classes_of(typ, gram):
-                    if child not in g_reached:
-                        g_reached.add(child)
-                        work.append(child)
-    positions = [(c, f, typ) for c in sorted(gram) for f, typ in gram[c] if typ in STMT_CARRIERS]
-    n_oblig = 0
-    import_classes = sorted(c for c in gram if issubclass(getattr(ast, c), ast.stmt) and any(t == "alias*" for _, t in gram[c]))
-    for c, f, typ in positions:
-        if c not in g_reached:
-            res.observe(f"C02.R1: grammar position {c}.{f} is not reachable from Module through statement lists (separate root), not an obligation")
+            for i, (rec, importer, importee) in enumerate(recs):
+                n = case.names[i]
+                other = case.names[1 - i]
+                if importer != case.F:
+                    problems["importer"].append(f"the record for <{n.name}> has importer {show(importer)} instead of the importing file's module")
+                    sites.setdefault("importer", rec.site)
+                if not case.has_module:
+                    allowed = [n, cat(case.X, ".", n)]
+                    if importee not in allowed:
+                        kind = "indep" if mentions(importee, other) else "plain"
+                        problems[kind].append(f"`import {show(n)}` names {show(importee)} when {pc}")
+                        sites.setdefault(kind, rec.site)
+                    continue
+                # from-import
+                lv = path_val(r, L0) if case.has_level else True
+                if lv is None:
+                    problems["level"].append(f"the record for <{n.name}> ({show(importee)}) is produced without consulting the statement's level")
+                    sites.setdefault("level", rec.site)
+                    continue
+                if lv:
+                    bases = [case.P, cat(case.X, ".", case.P)]
+                else:
+                    head, rest = split_anchor(importee)
+                    verdict, fq = check_anchor(head, case)
+                    if verdict == "undecided":
+                        undecided.append(f"the package a relative import is resolved against is computed as {show(head)}, a shape the executor cannot compare with ancestors(importer)[-level]")
+                        continue
+                    if verdict is not None:
+                        problems["anchor"].append(verdict)
+                        sites.setdefault("anchor", rec.site)
+                        continue
+                    hierarchy_fq = hierarchy_fq or fq
+                    pn = path_val(r, noneP)
+                    if pn is None:
+                        problems["consult"].append(f"the importee of `from {'.' * 1}[P] import {show(n)}` is {show(importee)} whether or not the module part P is present")
+                        sites.setdefault("consult", rec.site)
+                        continue
+                    if pn:
+                        if rest != n:
+                            kind = "indep" if mentions(importee, other) else "from"
+                            problems[kind].append(f"`from . import {show(n)}` names {show(importee)} instead of {show(cat(head, '.', n))} when {pc}")
+                            sites.setdefault(kind, rec.site)
+                        continue
+                    bases = [cat(head, ".", case.P)]
+                good = False
+                consulted = False
+                for b in bases:
+                    sub = cat(b, ".", n)
+                    v = path_val(r, App("in", (sub, case.S)))
+                    if v is not None:
+                        consulted = True
+                    if (v is True and importee == sub) or (v is False and importee == b):
+                        good = True
+                if good:
+                    continue
+                form = f"from {'P' if lv else '.P'} import {show(n)}"
+                if mentions(importee, other):
+                    problems["indep"].append(f"the importee of <{n.name}> in `from P import <n1>, <n2>` is {show(importee)}: it depends on the other imported name (when {pc})")
+                    sites.setdefault("indep", rec.site)
+                elif not consulted:
+                    problems["consult"].append(f"`{form}` names {show(importee)} without any test whether {show(cat(bases[0], '.', n))} is an internal module: the sub-module P.n is never named (when {pc})")
+                    sites.setdefault("consult", rec.site)
+                else:
+                    problems["from"].append(f"`{form}` names {show(importee)} when {pc}")
+                    sites.setdefault("from", rec.site)
+        for u in undecided[:1]:
+            res.undecide("C02.R4", f"{key}::{cls} relative anchor", u, wh)
+        odd = [a for r in feasible for a, _v in r.trace if mentions(a, case.S) and not ((a.fn == "in" and a.args[1] == case.S and not mentions(a.args[0], case.S)) or a == App("truthy", (case.S,)))]
+        if odd and any(problems[k] for k in ("consult", "from", "plain")):
+            res.undecide("C02.R3", f"{key}::{cls} conversion", f"the internal-module set is consulted in a way the executor cannot relate to `P.n in internal_modules`: {show(odd[0])}", wh)
             continue
-        n_oblig += 1
-        ok = c in reached and (c, f) in edges_ok
-        detail = f"{c}.{f} ({typ}) is descended by the collector" if ok else (
-            f"statement-list position {c}.{f} ({typ}) of the interpreter's grammar is never pushed onto the collector's worklist: "
-            f"an import statement placed there produces no edge" + ("" if c in reached else f" (nodes of class {c} are never reached)")
-        )
-        if ok:
-            # children that can carry imports must not be filtered away
-            d = descended_fields(c)
-            needed = concrete_classes_of(typ, gram) if typ != "stmt*" else [x for x in concrete_classes_of(typ, gram) if x in import_classes or any(t in STMT_CARRIERS for _, t in gram[x])]
-            lost = [x for x in needed if not admitted(x, d[f])]
-            if lost:
-                ok = False
-                detail = f"children of {c}.{f} of class {', '.join(lost)} are filtered out before being pushed: imports below them produce no edge"
-        res.add("C02.R1", f"{fi.relpath}::{fi.qualname}::position {c}.{f}", ok, detail, where(fi, found[0][5]), kind="grammar")
-    res.floor("C02.R1", 20, n_oblig)
-    res.analysed["grammar_classes"] = len(gram)
-    res.analysed["statement_positions"] = [f"{c}.{f}" for c, f, _ in positions]
-    res.analysed["descent_idioms"] = [
-        {"fields": "ALL" if fields == ALL else sorted(fields), "node": var, "guard": [(norm(e), pol) for e, pol in guard], "child_filter": [(norm(e), pol) for e, pol in flt]}
-        for fields, var, guard, _cv, flt, _ in found
-    ]
-    # leaves: nodes of the import classes must reach the conversion call, not be descended past or dropped
-    T = types_of(repo)
-    leaf_calls = []
-    for call in calls_in(fi.node):
-        cs, _how = T.callees(fi, call, byname_fallback=False)
-        for c in cs:
-            if c.module.name == CONVERTER and c is not fi and any(
-                isinstance(n, ast.Call) and isinstance(n.func, ast.Name) and n.func.id == "isinstance" for n in own_nodes(c.node)
-            ):
-                leaf_calls.append((call, c))
-    if not leaf_calls:
-        raise AnalysisError(f"{fi.fq}: no call to a dispatching converter found")
-    node_vars = {v for _f, v, *_ in found}
-    for ic in import_classes:
-        ok = False
-        for call, _c in leaf_calls:
-            cs_ = conds(fi, call)
-            verdicts = [eval_conds_for_class(cs_, v, ic) for v in node_vars]
-            if any(v is True for v in verdicts) or (not cs_):
-                ok = True
-        res.add(
-            "C02.R1",
-            f"{fi.relpath}::{fi.qualname}::leaf {ic}",
-            ok,
-            f"nodes of class {ic} reach the conversion call" if ok else f"a node of class {ic} never reaches the conversion call (its guard excludes it)",
-            where(fi, leaf_calls[0][0]),
-            kind="grammar",
-        )
-    return leaf_calls[0][1]
+        new_fallbacks = sorted(x for x in col.fallbacks - before if not any(x.startswith(o + " ") for o in col.opaque))
+        if new_fallbacks and any(problems.values()):
+            # a helper could only be treated as an uninterpreted function: mismatches with the specification may be artefacts of that
+            res.undecide("C02.R3", f"{key}::{cls} conversion", f"part of the conversion cannot be interpreted: {new_fallbacks[0]}", wh)
+            continue
+
+        def add(rule: str, what: str, kinds: list[str], good: str) -> None:
+            bad = [p for k in kinds for p in problems[k]]
+            site = next((sites[k] for k in kinds if k in sites), wh)
+            res.add(rule, f"{key}::{cls} {what}", not bad, good if not bad else bad[0] + (f" (+{len(bad) - 1} more paths)" if len(bad) > 1 else ""), site if bad else wh, kind="flow")
+
+        add("C02.R2", "[one record per imported name]", ["count", "raise"], f"every path yields one record per name of an ast.{cls} statement")
+        add("C02.R2", "[importer is the file]", ["importer"], "every record's importer is the scanned file's module")
+        n2 += 2
+        if not case.has_module:
+            add("C02.R2", "[importee is the named module]", ["plain", "indep"], "`import a.b.c` names a.b.c (optionally below the absolute-import prefix)")
+            n2 += 1
+        else:
+            add("C02.R3", "[names consulted]", ["consult", "from"], "the importee is P.n exactly when the membership test of P.n in the internal-module set succeeds, else P (absolute and relative form)")
+            add("C02.R3", "[per-name independence]", ["indep"], "the importee of one imported name never depends on another name of the same statement")
+            add("C02.R4", "[anchor is ancestors(importer)[-level]]", ["anchor", "level"], "relative imports are resolved against the importer's ancestor at index -level")
+            n3 += 2
+            n4 += 1
+    res.floor("C02.R2", 4, n2)
+    res.floor("C02.R3", 2, n3)
+    return usable, hierarchy_fq
 
 
-# --------------------------------------------------------------------------- R2 / R3
+def check_anchor(head: Any, case: Case) -> tuple[str | None, str | None]:
+    """None if `head` is ancestors(importer)[-level]; a violation text; or 'undecided'. Second value: fq of the ancestors function.
+
+    Accepted spellings of "the importer with its last `level` components removed":
+      H[-level], H[len(H) - level], reversed(H)[level - 1], H[::-1][level - 1]      with H = <ancestors function>(importer)
+      importer.rsplit(".", level)[0],  ".".join(importer.split(".")[:-level])
+    """
+    F, L = case.F, case.L
+    if isinstance(head, Term) and not mentions(head, L):
+        return f"the package a relative import is resolved against ({show(head)}) does not depend on the statement's level", None
+    if isinstance(head, Term) and not mentions(head, F):
+        return f"the package a relative import is resolved against ({show(head)}) does not depend on the importing module", None
+    if head == App("index", (App("meth:rsplit", (F, ".", L)), 0)):
+        return None, None
+    if head == App("meth:join", (".", App("index", (App("meth:split", (F, ".")), App("slice", (None, App("neg", (L,)), None)))))):
+        return None, None
+    if not (isinstance(head, App) and head.fn == "index"):
+        return "undecided", None
+    seq, idx = head.args
+    rev = False
+    if isinstance(seq, App) and (seq.fn == "reversed" or (seq.fn == "index" and seq.args[1] == App("slice", (None, None, -1)))):
+        seq, rev = seq.args[0], True
+    if not (isinstance(seq, App) and seq.fn.startswith("call:") and seq.args == (F,)):
+        return "undecided", None
+    if rev:
+        good_idx = idx == App("add", (L, -1))
+        want = "level - 1 of the reversed ancestors"
+    else:
+        good_idx = idx == App("neg", (L,)) or idx == App("sub", (App("len", (seq,)), L))
+        want = "-level"
+    if not good_idx:
+        return f"the ancestor package of a relative import is taken at index `{show(idx)}` instead of `{want}`: `from ..x import y` resolves against the wrong package", seq.fn[5:]
+    return None, seq.fn[5:]
+
+
+def run_r4_ancestors(repo: Repo, res: Result, fq: str | None) -> None:
+    """The function whose result is indexed with -level must return the proper dotted prefixes of a name, shortest first."""
+    f = repo.funcs.get(fq) if fq else None
+    if f is None:
+        f = repo.find_func(TYPES_MOD, "get_parent_modules")
+    if f is None:
+        res.undecide("C02.R4", "ancestors function", "neither seen in the relative-import term nor found as get_parent_modules")
+        return
+    samples = {"a.b.c": ["a", "a.b"], "top": [], "pkg.sub.mod.leaf": ["pkg", "pkg.sub", "pkg.sub.mod"], "x.y": ["x"], "my_pkg.sub-mod.x_1": ["my_pkg", "my_pkg.sub-mod"]}
+    folded = True
+    why_not = ""
+    bad: list[str] = []
+    for arg, want in samples.items():
+        try:
+            ex = Explorer(repo, max_runs=50)
+            runs = ex.explore(lambda it, f=f, arg=arg: it._run_function(f, [arg], {}, None))
+            if len(runs) != 1 or runs[0].outcome != "return":
+                folded = False
+                why_not = f"{len(runs)} paths / outcome {runs[0].outcome} {runs[0].raised} on {arg!r}"
+                break
+            got = runs[0].value
+            got = list(got) if isinstance(got, (list, tuple)) else got
+            if got != want:
+                bad.append(f"{f.name}({arg!r}) folds to {show(got)} instead of {want!r}")
+        except Unsupported as u:
+            folded = False
+            why_not = f"{u.msg} at {u.where()}"
+            break
+    key = f"{f.relpath}::{f.qualname}::ancestors of a dotted name"
+    if folded:
+        res.add("C02.R4", key, not bad, "constant folding on sample names yields exactly the proper dotted prefixes, shortest first" if not bad else bad[0] + ": relative imports resolve against the wrong package", where(f, f.node), kind="structural")
+        return
+    # the body cannot be folded on constants: no verdict on it (never guess from its literals)
+    res.undecide("C02.R4", key, f"{f.name} cannot be constant-folded on sample names by the symbolic executor ({why_not})", where(f, f.node))
+
+
+# --------------------------------------------------------------------------- R5
 
 
 def import_record_classes(repo: Repo) -> list:
@@ -372,268 +577,12 @@ def import_record_classes(repo: Repo) -> list:
     return [c for c in repo.classes.values() if c is not base and repo.is_subclass(c, base.fq)]
 
 
-def _branch_class(fi: FuncInfo, node: ast.AST, var: str, classes: list[str]) -> str | None:
-    cs_ = conds(fi, node)
-    hits = [c for c in classes if eval_conds_for_class(cs_, var, c) is not False]
-    return hits[0] if len(hits) == 1 else None
-
-
-def run_r2_r3(repo: Repo, res: Result, gram: dict, dispatch: FuncInfo) -> None:
-    T = types_of(repo)
-    import_classes = sorted(c for c in gram if issubclass(getattr(ast, c), ast.stmt) and any(t == "alias*" for _, t in gram[c]))
-    rec_classes = import_record_classes(repo)
-    rec_fqs = {c.fq for c in rec_classes}
-    # node parameter of the dispatcher = the one tested with isinstance against ast.Import*
-    node_param = None
-    tested: set[str] = set()
-    for n in own_nodes(dispatch.node):
-        if isinstance(n, ast.Call) and isinstance(n.func, ast.Name) and n.func.id == "isinstance" and len(n.args) == 2:
-            names = _class_tuple(n.args[1]) or []
-            if any(x in import_classes for x in names) and dotted(n.args[0]) in dispatch.param_names:
-                node_param = dotted(n.args[0])
-                tested |= set(names)
-    if node_param is None:
-        raise AnalysisError(f"{dispatch.fq}: no isinstance dispatch on the grammar's import classes {import_classes}")
-    for ic in import_classes:
-        res.add(
-            "C02.R2",
-            f"{dispatch.relpath}::{dispatch.qualname}::dispatch {ic}",
-            ic in tested,
-            f"import statement class {ic} is dispatched" if ic in tested else f"import statement class ast.{ic} is never handled: such statements produce no edge",
-            where(dispatch, dispatch.node),
-            kind="grammar",
-        )
-    ctor_sites: dict[str, list[ast.Call]] = {ic: [] for ic in import_classes}
-    for call in calls_in(dispatch.node):
-        ci = T.ctor_class(dispatch, call)
-        if ci is None or ci.fq not in rec_fqs:
-            continue
-        b = _branch_class(dispatch, call, node_param, import_classes)
-        if b is None:
-            from core.guards import satisfiable
-
-            if not satisfiable(conds_formula(conds(dispatch, call))):
-                continue  # dead code
-            raise AnalysisError(f"{dispatch.fq}: constructor call `{norm(call)}` is not under exactly one import-class branch")
-        ctor_sites[b].append(call)
-    n_sites = 0
-    for ic, sites in ctor_sites.items():
-        res.add(
-            "C02.R2",
-            f"{dispatch.relpath}::{dispatch.qualname}::records for {ic}",
-            bool(sites),
-            f"{len(sites)} import record constructor site(s) in the {ic} branch" if sites else f"no import record is created for ast.{ic} statements",
-            where(dispatch, dispatch.node),
-            nontrivial=False,
-        )
-        for call in sites:
-            n_sites += 1
-            loop = None
-            for lp in loops_around(call, dispatch.node):
-                for tgt, it in iter_sources(lp):
-                    if isinstance(it, ast.Attribute) and it.attr == "names" and dotted(it.value) == node_param and isinstance(tgt, ast.Name):
-                        loop = (lp, tgt.id)
-                if loop:
-                    break
-            ok = loop is not None
-            detail = "constructed once per alias of `.names`" if ok else (
-                f"`{norm(call)}` is not inside a loop over `{node_param}.names`: a multi-name import statement yields at most one record"
-            )
-            if ok and isinstance(loop[0], (ast.For, ast.AsyncFor)):
-                brk = [n for n in ast.walk(loop[0]) if isinstance(n, (ast.Break, ast.Return))]
-                if brk:
-                    ok = False
-                    detail = f"the loop over `{node_param}.names` can be left early (`{header(brk[0])}`): later names of the statement are dropped"
-            res.add("C02.R2", repo.key(dispatch, stmt_of(call)) + f" [{ic}]", ok, detail, where(dispatch, call), kind="structural")
-    res.floor("C02.R2", 3, n_sites)
-
-    # ---- R3: tags ALIAS (alias.name), MODPART (node.module), INTERNAL (the internal-module set parameter)
-    collector = repo.func(CONVERTER, "ImportConverter.convert")
-    internal_param = None
-    for p in collector.params:
-        ann = norm(p.annotation) if p.annotation is not None else ""
-        if "set" in ann.lower() and p.arg not in ("self",):
-            internal_param = p.arg
-    if internal_param is None:
-        raise AnalysisError(f"{collector.fq}: no set-typed parameter holding the internal modules")
-    alias_vars: set[tuple[str, str]] = set()
-    for f in repo.module(CONVERTER).all_funcs:
-        for n in own_nodes(f.node):
-            for tgt, it in iter_sources(n) if isinstance(n, (ast.For, ast.ListComp, ast.SetComp, ast.GeneratorExp, ast.DictComp)) else []:
-                if isinstance(it, ast.Attribute) and it.attr == "names" and isinstance(tgt, ast.Name):
-                    alias_vars.add((f.fq, tgt.id))
-
-    def sources(f: FuncInfo, e: ast.expr):
-        if isinstance(e, ast.Attribute) and isinstance(e.value, ast.Name):
-            if e.attr == "name" and (f.fq, e.value.id) in alias_vars:
-                return {"ALIAS"}
-            if e.attr == "module" and f is dispatch and e.value.id == node_param:
-                return {"MODPART"}
-        return None
-
-    scope_mods = {CONVERTER, IMPORT_TYPES, TYPES_MOD}
-    flow = Flow(repo, T, Spec(sources=sources, param_seeds={(collector.fq, internal_param): {"INTERNAL"}}, scope=lambda f: f.module.name in scope_mods))
-    sites = ctor_sites.get("ImportFrom", [])
-    n3 = 0
-    for call in sites:
-        n3 += 1
-        ci = T.ctor_class(dispatch, call)
-        # candidate membership tests: in the dispatcher (must dominate the constructor call) or in the constructor's call tree
-        init = repo.lookup_method(ci, "__init__")
-        funcs = [dispatch] + ([f for f in reachable_funcs(repo, [init], byname=False)] if init else [])
-        good = None
-        for f in funcs:
-            for n in own_nodes(f.node):
-                if isinstance(n, ast.Compare) and len(n.ops) == 1 and isinstance(n.ops[0], (ast.In, ast.NotIn)):
-                    lt, rt = flow.tags(n.left), flow.tags(n.comparators[0])
-                    if "ALIAS" in lt and "INTERNAL" in rt:
-                        # must steer control flow (test of if / while / conditional expression), not be discarded
-                        p = parent(n)
-                        while isinstance(p, (ast.BoolOp, ast.UnaryOp)):
-                            p = parent(p)
-                        if not isinstance(p, (ast.If, ast.IfExp, ast.While)):
-                            continue
-                        if f is dispatch:
-                            st = stmt_of(n)
-                            if not cfg_of(dispatch).dominates(st, stmt_of(call)):
-                                # a test on the other level branch does not decide this site
-                                same_branch = _same_level_branch(dispatch, n, call)
-                                if not same_branch:
-                                    continue
-                        good = (f, n, "MODPART" in lt)
-                        break
-            if good:
-                break
-        ok = good is not None
-        detail = (
-            f"importee decided by `{norm(good[1])}` in {good[0].qualname}" + ("" if good[2] else " (left operand not derived from the statement's module part: relative `from . import n` form)")
-            if ok
-            else f"no test `<P>.<alias.name> in <internal modules>` decides the importee of `{norm(call)}`: `from P import n` never names the sub-module P.n"
-        )
-        res.add("C02.R3", repo.key(dispatch, stmt_of(call)) + " [names consulted]", ok, detail, where(dispatch, call), kind="flow")
-    # no value may leak from one alias to the next one of the same statement
-    for call_list in ctor_sites.values():
-        for call in call_list:
-            for lp in loops_around(call, dispatch.node):
-                if isinstance(lp, (ast.For, ast.AsyncFor)) and any(isinstance(it, ast.Attribute) and it.attr == "names" for _t, it in iter_sources(lp)):
-                    carried = loop_carried(lp)
-                    used = {n.id for a in [*call.args, *[k.value for k in call.keywords]] for n in ast.walk(a) if isinstance(n, ast.Name)}
-                    # variables feeding the record (directly or through the preceding statements of the loop body)
-                    feeding = _feeding_vars(lp, used)
-                    leak = sorted(carried & feeding)
-                    n3 += 1
-                    res.add(
-                        "C02.R3",
-                        repo.key(dispatch, lp) + " [per-name independence]",
-                        not leak,
-                        "no variable carries a value from one imported name to the next" if not leak else f"variable(s) {', '.join(leak)} assigned in the loop over `.names` are read before being reset in the next iteration: the importee of one name depends on the previous name",
-                        where(dispatch, lp),
-                        kind="flow",
-                    )
-    res.floor("C02.R3", 2, n3)
-    res.analysed["flow_rounds"] = flow.rounds
-
-
-def _same_level_branch(fi: FuncInfo, a: ast.AST, b: ast.AST) -> bool:
-    """a and b sit in the same innermost loop body and the If holding a precedes b's statement in the same block chain."""
-    la = loops_around(a, fi.node)
-    lb = loops_around(b, fi.node)
-    if not la or not lb or la[0] is not lb[0]:
-        return False
-    ca = {id(e): pol for e, pol in conds(fi, stmt_of(a))}
-    for e, pol in conds(fi, stmt_of(b)):
-        if id(e) in ca and ca[id(e)] != pol:
-            return False
-    return stmt_of(a).lineno <= stmt_of(b).lineno
-
-
-def _feeding_vars(loop: ast.For, used: set[str]) -> set[str]:
-    feeding = set(used)
-    changed = True
-    while changed:
-        changed = False
-        for n in ast.walk(loop):
-            if isinstance(n, ast.Assign):
-                tg = {x.id for t in n.targets for x in ast.walk(t) if isinstance(x, ast.Name)}
-                if tg & feeding:
-                    src = {x.id for x in ast.walk(n.value) if isinstance(x, ast.Name)}
-                    if not src <= feeding:
-                        feeding |= src
-                        changed = True
-            elif isinstance(n, ast.If):
-                body_t = {x.id for s in [*n.body, *n.orelse] for x in ast.walk(s) if isinstance(x, ast.Name) and isinstance(x.ctx, ast.Store)}
-                if body_t & feeding:
-                    src = {x.id for x in ast.walk(n.test) if isinstance(x, ast.Name)}
-                    if not src <= feeding:
-                        feeding |= src
-                        changed = True
-    return feeding
-
-
-# --------------------------------------------------------------------------- R4
-
-
-def run_r4(repo: Repo, res: Result) -> None:
-    rel = repo.cls(IMPORT_TYPES, "RelativeImport")
-    T = types_of(repo)
-    # the method whose return value is the importee of a relative import
-    importee = repo.lookup_method(rel, "importee")
-    if importee is None:
-        raise AnalysisError("RelativeImport.importee not found")
-    cands = []
-    for m in rel.methods.values():
-        for n in own_nodes(m.node):
-            if isinstance(n, ast.Subscript) and isinstance(n.slice, (ast.UnaryOp, ast.BinOp, ast.Name, ast.Attribute, ast.Constant)):
-                base_t = T.expr(m, n.value)
-                if "_importer_module_hierarchy" in norm(n.value) or "parent" in norm(n.value):
-                    cands.append((m, n))
-    if not cands:
-        raise AnalysisError("RelativeImport: ancestor lookup `hierarchy[-level]` not recognised")
-    n = 0
-    for m, sub in cands:
-        n += 1
-        idx = sub.slice
-        ok = isinstance(idx, ast.UnaryOp) and isinstance(idx.op, ast.USub) and "level" in norm(idx.operand).lower() and isinstance(idx.operand, (ast.Name, ast.Attribute))
-        res.add(
-            "C02.R4",
-            repo.key(m, stmt_of(sub)),
-            ok,
-            "ancestor index is the negated level" if ok else f"the ancestor of a relative import is taken at index `{norm(idx)}` instead of `-level`: `from ..x import y` resolves against the wrong package",
-            where(m, sub),
-            kind="structural",
-        )
-        # result = ancestor + "." + name
-        st = stmt_of(sub)
-        joined = isinstance(st, ast.Return) and st.value is not None and any(isinstance(c, ast.Constant) and c.value == "." for c in ast.walk(st.value)) or any(
-            isinstance(c, ast.Constant) and isinstance(c.value, str) and c.value.startswith(".") for c in ast.walk(st)
-        )
-        res.add("C02.R4", repo.key(m, stmt_of(sub)) + " [dot join]", bool(joined), "ancestor and name are joined with '.'" if joined else "ancestor and name are not joined with '.'", where(m, sub), kind="structural")
-    # the hierarchy is get_parent_modules(importer)
-    base = repo.cls(TYPES_MOD, "Import")
-    init = base.methods.get("__init__")
-    ok = False
-    if init is not None:
-        for c in calls_in(init.node):
-            if isinstance(c.func, ast.Name) and c.func.id == "get_parent_modules" and c.args and "importer" in norm(c.args[0]):
-                ok = True
-    res.add("C02.R4", f"{base.module.relpath}::Import.__init__::importer hierarchy", ok, "importer ancestors come from get_parent_modules(importer)" if ok else "importer ancestors are not computed by get_parent_modules(importer)", nontrivial=False)
-    gpm = repo.func(TYPES_MOD, "get_parent_modules")
-    dots = [c for c in ast.walk(gpm.node) if isinstance(c, ast.Constant) and c.value == "."]
-    other = [c for c in ast.walk(gpm.node) if isinstance(c, ast.Constant) and isinstance(c.value, str) and c.value not in (".", "") and c is not ast.get_docstring(gpm.node)]
-    other = [c for c in other if not (isinstance(parent(c), ast.Expr))]
-    ok = bool(dots) and not other
-    res.add("C02.R4", f"{gpm.relpath}::get_parent_modules::separator", ok, "ancestors are cut at '.' only" if ok else f"get_parent_modules uses separators other than '.': {[c.value for c in other]}", where(gpm, gpm.node), kind="structural")
-    res.floor("C02.R4", 3, n + 2)
-
-
-# --------------------------------------------------------------------------- R5
-
-
-def run_r5(repo: Repo, res: Result) -> None:
+def run_r5_creators(repo: Repo, res: Result, col: Collector) -> None:
     T = types_of(repo)
     rec_fqs = {c.fq for c in import_record_classes(repo)}
-    collector = repo.func(CONVERTER, "ImportConverter.convert")
-    allowed = {f.fq for f in reachable_funcs(repo, [collector], byname=False)}
+    # the collector's call tree: statically resolved calls plus every function the symbolic runs of `convert` actually entered
+    # (covers library-dispatched callbacks such as ast.NodeVisitor.visit_*)
+    allowed = {f.fq for f in reachable_funcs(repo, [col.entry], byname=False)} | col.entered
     n = 0
     for f in repo.all_functions():
         for call in calls_in(f.node):
@@ -649,106 +598,326 @@ def run_r5(repo: Repo, res: Result) -> None:
                     where(f, call),
                     kind="effect",
                 )
-    res.floor("C02.R5", 3, n)
+    res.analysed["record_constructor_sites"] = n  # no floor: that records are created at all is established by R2 on the symbolic runs
+
+
+def run_r5_graph(repo: Repo, res: Result) -> None:
     g = repo.cls(NXGRAPH, "NetworkxGraph")
-    adders = []
-    for m in g.methods.values():
-        for call in calls_in(m.node):
-            if is_attr_call(call, "add_edge") and "_graph" in norm(call.func.value):
-                adders.append((m, call))
-    if not adders:
-        raise AnalysisError("NetworkxGraph: no add_edge call found")
-    for m, call in adders:
-        cs_ = conds(m, call)
-        text = " && ".join(f"{'' if pol else 'not '}{norm(e)}" for e, pol in cs_)
-        f = conds_formula(cs_)
-        ok_all = True
-        missing = []
-        for a in call.args[:2]:
-            an = norm(a)
-            want = [f"bool({norm(call.func.value)}.has_node({an}))", f"{an} in {norm(call.func.value)}"]
-            from core.guards import atom, f_or, implies
+    init = repo.lookup_method(g, "__init__")
+    key = f"{g.module.relpath}::NetworkxGraph(all_modules, imports, level_limit)"
+    wh = where(init, init.node) if init is not None else ""
+    R = Sym("imp")
+    a = App("meth:importer", (R,))
+    b = App("meth:importee", (R,))
 
-            goal = f_or([atom(w) for w in want])
-            if not implies(f, goal):
-                ok_all = False
-                missing.append(an)
-        res.add(
-            "C02.R5",
-            repo.key(m, stmt_of(call)) + " [both endpoints are known modules]",
-            ok_all,
-            "edge creation is guarded by has_node on both endpoints" if ok_all else f"an edge is added without checking that {', '.join(missing)} is a known module: imported names that are not modules become edges/nodes (guard: {text or 'none'})",
-            where(m, call),
-            kind="dominance",
-        )
-    # nothing else may suppress an edge: the only reasons are self-edge (after flattening), unknown endpoint, edge already present
-    for m, call in adders:
-        allowed = []
-        a0, a1 = (norm(a) for a in call.args[:2])
-        gname = norm(call.func.value)
-        for e, pol in conds(m, call):
-            for part in (e.values if isinstance(e, ast.BoolOp) and isinstance(e.op, ast.And) and pol else [e]):
-                t = norm(part.operand if isinstance(part, ast.UnaryOp) and isinstance(part.op, ast.Not) else part)
-                okp = (
-                    t in (f"{gname}.has_node({a0})", f"{gname}.has_node({a1})", f"{a0} in {gname}", f"{a1} in {gname}", f"{a0} == {a1}", f"{a1} == {a0}")
-                    or "already_present" in t
-                    or f"{gname}.has_edge({a0}, {a1})" in t
-                )
-                if not okp:
-                    allowed.append(t)
-        res.add(
-            "C02.R5",
-            repo.key(m, stmt_of(call)) + " [no other reason to drop an edge]",
-            not allowed,
-            "an edge between two known modules is only suppressed as a self-edge or a duplicate" if not allowed else f"the edge is additionally suppressed depending on `{'`, `'.join(allowed)}`: imports between two known modules silently disappear from the architecture",
-            where(m, call),
-            kind="dominance",
-        )
-    # import edges take their endpoints from the import records only, oriented importer -> importee
-    init = g.methods.get("_initialise")
-    if init is None:
-        raise AnalysisError("NetworkxGraph._initialise not found")
+    def entry(it):
+        return it.instantiate(g, [[Sym("module", "str")], [R], Sym("level_limit", "optint")], {}, None, None)
 
-    def sources(f: FuncInfo, e: ast.expr):
-        if isinstance(e, ast.Call) and isinstance(e.func, ast.Attribute) and e.func.attr in ("importer", "importee") and not e.args:
-            return {e.func.attr.upper()}
-        return None
+    try:
+        ex = Explorer(repo, opaque={f"{TYPES_MOD}::get_parent_modules"}, split_calls=True, max_runs=6000)
+        runs = ex.explore(entry)
+    except Unsupported as u:
+        res.undecide("C02.R5", key, f"the symbolic executor cannot interpret the graph construction: {u.msg}", u.where() or wh)
+        return
+    res.analysed["graph_paths"] = len(runs)
 
-    flow = Flow(repo, T, Spec(sources=sources, scope=lambda f: f is init))
-    k = 0
-    for call in calls_in(init.node):
-        if is_attr_call(call, "_create_edge"):
-            inherits = [kw for kw in call.keywords if kw.arg == "inherits"]
-            if (inherits and not (isinstance(inherits[0].value, ast.Constant) and inherits[0].value.value is False)) or len(call.args) > 2:
+    def about(t: Any) -> str:
+        ma, mb = mentions(t, a), mentions(t, b)
+        return "AB" if ma and mb else "A" if ma else "B" if mb else ""
+
+    def endpoints(e) -> tuple[str, str] | None:
+        if e.kind != "ext" or e.name != "add_edge" or len(e.args) < 2:
+            return None
+        return about(e.args[0]), about(e.args[1])
+
+    def attrs(e) -> dict:
+        d = dict(e.args[2]) if len(e.args) > 2 and isinstance(e.args[2], dict) else {}
+        d.update(e.kwargs)
+        return d
+
+    # edges inside one module hierarchy (both ends derived from the same side of the record) carry the marker of hierarchy edges
+    hier = [attrs(e) for r in runs for e in r.effects if endpoints(e) is not None and not ("A" in "".join(endpoints(e)) and "B" in "".join(endpoints(e)))]
+    hier_marker = {k: v for k, v in hier[0].items() if isinstance(v, bool) and all(h.get(k) is v for h in hier)} if hier else {}
+
+    def known_node(r: Run, e, t: Any) -> bool:
+        """has_node(t) was established before the edge is added and no node has been removed since."""
+        for at, v in e.path.items():
+            if v and at.fn.startswith("hasnode@") and at.args == (e.obj.name, t):
+                since = int(at.fn.split("@")[1])
+                if since <= e.version and not any(x.kind == "ext" and x.obj is e.obj and x.name in ("remove_node", "remove_nodes_from", "clear") and since <= x.version < e.version for x in r.effects):
+                    return True
+        return False
+
+    def same_by_equalities(r: Run) -> bool:
+        """The equalities decided on the path identify a term of the importer's side with one of the importee's side (self-edge)."""
+        cls: dict[Any, Any] = {}
+
+        def find(t: Any) -> Any:
+            while cls.get(t, t) != t:
+                t = cls[t]
+            return t
+
+        for at, v in r.path.items():
+            if at.fn == "eq" and v:
+                cls[find(at.args[0])] = find(at.args[1])
+        groups: dict[Any, set[str]] = {}
+        for t in list(cls) + list(cls.values()):
+            try:
+                groups.setdefault(find(t), set()).add(about(t))
+            except TypeError:
                 continue
-            k += 1
-            a, b = flow.tags(call.args[0]), flow.tags(call.args[1])
-            ok = a == {"IMPORTER"} and b == {"IMPORTEE"}
-            res.add(
-                "C02.R5",
-                repo.key(init, stmt_of(call)) + " [orientation]",
-                ok,
-                "import edge runs from imp.importer() to imp.importee()" if ok else f"import edge endpoints are not (importer, importee) of the record: start derives from {sorted(a) or 'nothing'}, end from {sorted(b) or 'nothing'}",
-                where(init, call),
-                kind="flow",
-            )
-    res.floor("C02.R5.edges", 1, k)
+        return any({"A", "B"} <= g for g in groups.values())
+
+    orient_bad: list[str] = []
+    known_bad: list[str] = []
+    drop_bad: list[str] = []
+    unknown: list[str] = []
+    n_edges = 0
+    edge_where = wh
+    with_edge: list[tuple[Run, int]] = []  # runs that add the import edge, and how many decisions they had taken by then
+    for r in runs:
+        first: int | None = None
+        for e in r.effects:
+            ep = endpoints(e)
+            if ep is None or not ("A" in ep[0] + ep[1] and "B" in ep[0] + ep[1]):
+                continue  # not an edge between the two sides of the import record
+            n_edges += 1
+            edge_where = e.where or edge_where
+            x, y = e.args[0], e.args[1]
+            if ep != ("A", "B"):
+                orient_bad.append(f"an edge is added from {show(x)} to {show(y)}: its endpoints are not (importer, importee) of the import record")
+                continue
+            at = attrs(e)
+            unknown_attr = [k for k in hier_marker if not isinstance(at.get(k), bool) and k in at]
+            if unknown_attr:
+                unknown.append(f"the edge importer -> importee is added with `{unknown_attr[0]}` = {show(at[unknown_attr[0]])}, not a constant")
+                continue
+            if hier_marker and all(at.get(k) is v for k, v in hier_marker.items()):
+                orient_bad.append(f"the edge {show(x)} -> {show(y)} is marked like a parent-child edge ({', '.join(f'{k}={v}' for k, v in hier_marker.items())}): it does not count as an import")
+                continue
+            if first is None:
+                first = e.n_decisions
+            for t in (x, y):
+                if not known_node(r, e, t):
+                    known_bad.append(f"the edge {show(x)} -> {show(y)} is added without a check that {show(t)} is a known module: imported names that are not modules become edges / nodes")
+        if first is not None:
+            with_edge.append((r, first))
+        elif r.outcome == "raise":
+            unknown.append(f"graph construction raises {r.raised} when {fmt_path(r)}")
+
+    def excuse(r: Run, at: App, v: bool) -> bool:
+        if at.fn == "eq" and v and ({about(at.args[0]), about(at.args[1])} == {"A", "B"} or same_by_equalities(r)):
+            return True
+        if at.fn.startswith("hasnode@") and not v and about(at.args[1]) in ("A", "B"):
+            return True
+        if at.fn.startswith("hasedge@") and v and about(at.args[1]) == "A" and about(at.args[2]) == "B":
+            return True
+        return False
+
+    # every path that does not add the import edge: the decision at which it leaves the nearest path that does add it must be a
+    # legitimate reason (self-edge, unknown endpoint, edge already there) - or a merely structural one (separately explored loop / call)
+    edge_runs = {id(r) for r, _ in with_edge}
+    for r in runs:
+        if id(r) in edge_runs or r.outcome == "raise" or not with_edge:
+            continue
+        best_j, best = -1, None
+        for e_run, k in with_edge:
+            j = 0
+            while j < len(r.trace) and j < len(e_run.trace) and r.trace[j] == e_run.trace[j]:
+                j += 1
+            if j > best_j:
+                best_j, best = j, (e_run, k)
+        if best_j >= len(r.trace) or best_j >= best[1]:
+            continue  # ended (or was cut off) before anything distinguishes it from a path that adds the edge
+        at, v = r.trace[best_j]
+        if at.fn in ("loop", "call") or any(excuse(r, a2, v2) for a2, v2 in r.trace[: best_j + 1]):
+            continue  # (an edge that exists already may be kept or replaced depending on its kind: everything decided after has_edge is about that)
+        drop_bad.append(f"the import edge importer -> importee is not added when {show(at)} = {v} (on a path where both are known, distinct modules and no such edge exists yet, it is added only when {show(at)} = {not v})")
+    if ex.fallbacks and (orient_bad or known_bad or drop_bad or not n_edges):
+        # a helper could only be treated as an uninterpreted function: what looks like a violation may be an artefact of that
+        res.undecide("C02.R5", key, f"part of the graph construction cannot be interpreted: {sorted(ex.fallbacks)[0]}", wh)
+        return
+    for u in unknown[:1]:
+        res.undecide("C02.R5", key, u, wh)
+    if unknown and not n_edges:
+        return
+    if not any(e.kind == "ext" for r in runs for e in r.effects):
+        res.undecide("C02.R5", key, "the construction never calls a mutator of a networkx graph object the executor recognises (nx.DiGraph())", wh)
+        return
+    ok = n_edges > 0
+    res.add("C02.R5", key + " [import edge exists]", ok, f"import edges are added on {n_edges} path(s)" if ok else "no path of the graph construction adds an edge for an import record", wh, nontrivial=False)
+    if not ok:
+        return
+    res.add("C02.R5", key + " [orientation]", not orient_bad, "every import edge runs from imp.importer() to imp.importee() of one record" if not orient_bad else orient_bad[0], edge_where, kind="flow")
+    res.add("C02.R5", key + " [both endpoints are known modules]", not known_bad, "an import edge is only added when has_node holds for both endpoints in the same graph state" if not known_bad else known_bad[0], edge_where, kind="dominance")
+    res.add("C02.R5", key + " [no other reason to drop an edge]", not drop_bad, "an edge between two known modules is only suppressed as a self-edge or because it is already present" if not drop_bad else drop_bad[0] + ": imports between two known modules silently disappear from the architecture", edge_where, kind="dominance")
+
+
+# --------------------------------------------------------------------------- R6
+
+
+def _substitute(t: Any, pairs: list[tuple[Any, Any]]) -> Any:
+    """Rewrites a term with the equalities decided on a path (right-hand sides replaced by left-hand sides) to a fixpoint."""
+
+    def rw(x: Any) -> Any:
+        for a, b in pairs:
+            if x == b:
+                return a
+        if isinstance(x, Cat):
+            return cat(*[rw(p) for p in x.parts])
+        if isinstance(x, App):
+            return App(x.fn, tuple(rw(p) for p in x.args))
+        if isinstance(x, tuple):
+            return tuple(rw(p) for p in x)
+        return x
+
+    for _ in range(6):
+        n = rw(t)
+        if n == t:
+            return n
+        t = n
+    return t
+
+
+def record_equality_sites(repo: Repo) -> list[tuple[FuncInfoT, ast.AST, str]]:
+    """Expressions anywhere in src that compare / hash import records: de-duplication or filtering by record equality."""
+    T = types_of(repo)
+    base = repo.cls(TYPES_MOD, "Import")
+
+    def is_record(t: tuple) -> bool:
+        ms = t[1] if t[0] == "union" else [t]
+        return any(m[0] == "cls" and m[1] in repo.classes and repo.is_subclass(repo.classes[m[1]], base.fq) for m in ms)
+
+    def holds_records(t: tuple) -> bool:
+        ms = t[1] if t[0] == "union" else [t]
+        return any(m[0] == "b" and m[1] in ("list", "seq", "iter", "set", "frozenset", "tuple", "dict") and m[2] and any(is_record(a) for a in m[2][:1]) for m in ms)
+
+    out = []
+    for f in repo.all_functions():
+        if isinstance(f.node, ast.Lambda):
+            continue
+        for n in own_nodes(f.node):
+            try:
+                if isinstance(n, ast.Call):
+                    fn = n.func
+                    name = fn.id if isinstance(fn, ast.Name) else fn.attr if isinstance(fn, ast.Attribute) else ""
+                    args = [a.value if isinstance(a, ast.Starred) else a for a in n.args]
+                    if name in ("set", "frozenset", "Counter", "fromkeys", "update", "union", "difference", "intersection", "symmetric_difference", "issubset", "issuperset") and args and holds_records(T.expr(f, args[0])):
+                        out.append((f, n, f"`{norm(n)}` keys a collection by record equality"))
+                    elif name in ("add", "remove", "discard", "index", "count", "__contains__") and isinstance(fn, ast.Attribute) and args and is_record(T.expr(f, args[0])):
+                        out.append((f, n, f"`{norm(n)}` compares records"))
+                elif isinstance(n, ast.SetComp) and is_record(T.expr(f, n.elt)):
+                    out.append((f, n, f"`{norm(n)}` collects records in a set"))
+                elif isinstance(n, ast.DictComp) and is_record(T.expr(f, n.key)):
+                    out.append((f, n, f"`{norm(n)}` keys a dict by records"))
+                elif isinstance(n, ast.Set) and any(isinstance(e, ast.Starred) and holds_records(T.expr(f, e.value)) or (not isinstance(e, ast.Starred) and is_record(T.expr(f, e))) for e in n.elts):
+                    out.append((f, n, f"`{norm(n)}` collects records in a set"))
+                elif isinstance(n, ast.Compare) and any(isinstance(o, (ast.In, ast.NotIn)) for o in n.ops) and is_record(T.expr(f, n.left)):
+                    out.append((f, n, f"`{norm(n)}` tests membership of a record by equality"))
+            except Exception:  # noqa: BLE001  (the resolver gives up on an expression: not a site we can type)
+                continue
+    return out
+
+
+def run_r6(repo: Repo, res: Result, gram: dict, col: Collector) -> None:
+    base = repo.cls(TYPES_MOD, "Import")
+    by_value = [c for c in import_record_classes(repo) if repo.lookup_method(c, "__eq__") is not None or repo.lookup_method(c, "__hash__") is not None or dataclass_eq(c)]
+    res.analysed["record_classes_with_value_equality"] = [c.name for c in by_value]
+    if not by_value:
+        res.observe("C02.R6: import records compare by identity: no de-duplication of a record list can merge two statements")
+        return
+    sites = record_equality_sites(repo)
+    # pairs of statements that differ in one component; equal records must mean equal edges
+    P, n, F, X, S = Sym("P", "optstr"), "n", Sym("importer", "str"), Sym("prefix", "anystr"), Sym("internal", "set")
+    lossy: list[str] = []
+    gave_up: Unsupported | None = None
+    named = col.named
+
+    def pair_runs(stmts_a: list[ANode], stmts_b: list[ANode], Fa: Any, Fb: Any) -> list[Run]:
+        def entry(it):
+            conv = it.instantiate(col.conv_cls, [], {}, None, None)
+            nms = [it.instantiate(named, [node(gram, "Module", body=st), fx], {}, None, None) for st, fx in ((stmts_b, Fb), (stmts_a, Fa))]
+            recs = it.call(it.getattr_value(conv, "convert"), [nms, X, S], {})
+            kind, items = it.iterate(recs, col.entry.node, None)
+            if kind != "concrete" or len(items) != 2 or not all(isinstance(r, Inst) for r in items):
+                return None
+            r1, r2 = items
+            same = it.equal(r1, r2)
+            return same, [(it.call(it.getattr_value(r, "importer"), [], {}), it.call(it.getattr_value(r, "importee"), [], {})) for r in (r1, r2)], r1.ci.name
+
+        ex = Explorer(repo, opaque=col.opaque, max_runs=3000)
+        return ex.explore(entry)
+
+    cases = []
+    for cls in import_classes_of(gram):
+        has_module = any(f == "module" for f, _ in gram[cls])
+        if has_module:
+            L1, L2 = Sym("level1", "nat"), Sym("level2", "nat")
+            cases.append((f"`from <level1 dots>P import n` / `from <level2 dots>P import n` in one file", [import_leaf(gram, cls, [n], P, L1)], [import_leaf(gram, cls, [n], P, L2)], F, F))
+            cases.append((f"`from P1 import n` / `from P2 import n` in one file", [import_leaf(gram, cls, [n], Sym("P1", "optstr"), L1)], [import_leaf(gram, cls, [n], Sym("P2", "optstr"), L1)], F, F))
+        cases.append((f"ast.{cls} of two different names in one file", [import_leaf(gram, cls, ["n1"], P, Sym("level1", "nat"))], [import_leaf(gram, cls, ["n2"], P, Sym("level1", "nat"))], F, F))
+        cases.append((f"the same ast.{cls} statement in two files", [import_leaf(gram, cls, [n], P, Sym("level1", "nat"))], [import_leaf(gram, cls, [n], P, Sym("level1", "nat"))], Sym("importer1", "str"), Sym("importer2", "str")))
+    for what, sa, sb, Fa, Fb in cases:
+        try:
+            runs = pair_runs(sa, sb, Fa, Fb)
+        except Unsupported as u:
+            gave_up = gave_up or u
+            continue
+        for r in runs:
+            if r.outcome != "return" or r.value is None:
+                continue
+            same, pairs, clsname = r.value
+            if not same:
+                continue
+            eqs = [(a.args[0], a.args[1]) for a, v in r.path.items() if a.fn == "eq" and v and isinstance(a.args[1], Term)]
+            e1, e2 = (_substitute(p, eqs) for p in pairs)
+            if e1 != e2:
+                lossy.append(f"two {clsname} records from {what} compare equal although they stand for different imports: {show(pairs[0][0])} -> {show(pairs[0][1])} and {show(pairs[1][0])} -> {show(pairs[1][1])} (equality decided by: {fmt_path(r, lambda a: a.fn == 'eq') })")
+                break
+    key = f"{base.module.relpath}::Import records::equality determines the edge"
+    if gave_up is not None and not lossy:
+        if sites:
+            res.undecide("C02.R6", key, f"record equality cannot be interpreted ({gave_up.msg}) and records are compared at {len(sites)} site(s)", gave_up.where())
+        else:
+            res.observe(f"C02.R6: record equality not interpreted ({gave_up.msg}); no site compares records")
+        return
+    if not sites:
+        res.add("C02.R6", key, True, ("record equality is lossy but no code compares or hashes records: " + lossy[0]) if lossy else "equal records always have the same importer() and importee()", nontrivial=bool(lossy), kind="flow")
+        return
+    for f, n_, text in sites:
+        res.add(
+            "C02.R6",
+            repo.key(f, stmt_of(n_)) + " [records merged only when they are the same edge]",
+            not lossy,
+            f"{text}; equal records always have the same importer() and importee()" if not lossy else f"{text}, but {lossy[0]}: one of the two import statements yields no edge",
+            where(f, n_),
+            kind="flow",
+        )
 
 
 def run(repo: Repo) -> Result:
     res = Result("C02")
     res.explanation = (
-        "Decides the mechanism of C02 at the level of statement positions and import forms: (R1) every statement-list position of the "
-        "running interpreter's ast grammar is descended by the import collector and import nodes reach the converter; (R2) both import "
-        "statement classes are dispatched and every alias of a statement yields a record; (R3) for `from P import n` each n joined to P is "
-        "looked up in the internal-module set and no value leaks between names; (R4) relative imports resolve against the importer's "
-        "ancestor at -level; (R5) import records are created only by the collector and edges only between known modules, importer->importee."
+        "Decides the mechanism of C02 by symbolic execution of the public entry points on abstract inputs: (R1) an import statement at every "
+        "statement-list position of the running interpreter's ast grammar, in every nesting context, comes out of ImportConverter.convert as a "
+        "record, and nothing else does; (R2) every import statement class yields one record per imported name with the file as importer; "
+        "(R3) for `from P import n` the importee is P.n iff that is an internal module, per name; (R4) relative imports resolve against "
+        "ancestors(importer)[-level]; (R5) records are created only by the collector and the graph adds the edge importer->importee exactly "
+        "when both are known, distinct and not yet connected."
     )
-    res.not_decided = "that ast.parse builds the tree the grammar describes (trusted); behaviour on concrete project trees is not executed."
-    res.trusted_base = ["CPython ast module docstrings describe the grammar", "ast.iter_child_nodes yields every child node", "engine resolver/flow (core/)"]
+    res.not_decided = "that ast.parse builds the tree the grammar describes (trusted); module naming of files (C04); flattening by level_limit (C09)."
+    res.trusted_base = ["CPython ast module docstrings describe the grammar", "ast.iter_child_nodes / ast.walk yield every child node", "networkx DiGraph semantics of has_node / has_edge / add_edge", "symbolic executor rules/c02_*.py"]
     gram = grammar()
-    dispatch = run_r1(repo, res, gram)
-    run_r2_r3(repo, res, gram, dispatch)
-    run_r4(repo, res)
-    run_r5(repo, res)
+    gpm = repo.find_func(TYPES_MOD, "get_parent_modules")
+    col = Collector(repo, gpm.fq if gpm is not None else None)
+    usable, hierarchy_fq = run_r2_r3_r4(repo, res, gram, col)
+    run_r4_ancestors(repo, res, hierarchy_fq)
+    if usable:
+        run_r1(repo, res, gram, col, usable)
+    run_r5_creators(repo, res, col)
+    run_r5_graph(repo, res)
+    run_r6(repo, res, gram, col)
+    res.analysed["symbolic_paths"] = col.paths
+    if col.fallbacks:
+        res.analysed["uninterpreted_functions"] = sorted(col.fallbacks)
     return res
